@@ -221,3 +221,131 @@ Proof.
   intros now o s tr s' r R. destruct (prog_correct now o s) as [tr0 [R0 _]].
   destruct (runs_deterministic _ _ _ _ _ R _ _ _ R0) as [_ [E1 E2]]. split; assumption.
 Qed.
+
+(* which thread each entry of the log belongs to: the threads that actually took a turn, in order *)
+Fixpoint sched_tids (sched : list nat) (threads : list (list top)) : list nat :=
+  match sched with
+  | [] => []
+  | i :: r => match take_turn i threads with
+              | (Some _, ths') => i :: sched_tids r ths'
+              | (None, ths') => sched_tids r ths'
+              end
+  end.
+
+Lemma crun_log_tids : forall sched threads s l,
+  map fst (snd (crun_log sched ((threads, s), l))) = (map fst l ++ sched_tids sched threads)%list.
+Proof.
+  induction sched as [|i r IH]; intros threads s l.
+  - cbn. rewrite app_nil_r. reflexivity.
+  - cbn [crun_log fold_left sched_tids]. unfold cstep_log at 2, cstep. cbn [fst snd].
+    destruct (take_turn i threads) as [[o|] ths'] eqn:T; cbn [fst snd].
+    + unfold crun_log in IH. rewrite IH. rewrite map_app. cbn [map fst].
+      rewrite <- app_assoc. reflexivity.
+    + unfold crun_log in IH. rewrite IH. reflexivity.
+Qed.
+
+Lemma sched_tids_length : forall sched threads,
+  List.length (sched_tids sched threads) = List.length (linearize sched threads).
+Proof.
+  induction sched as [|i r IH]; intros threads; [reflexivity|].
+  cbn [sched_tids linearize]. destruct (take_turn i threads) as [[o|] ths']; cbn [List.length]; rewrite IH; reflexivity.
+Qed.
+
+Lemma combine_fst_snd : forall {A B} (l : list (A * B)), combine (map fst l) (map snd l) = l.
+Proof. induction l as [|[a b] r IH]; [reflexivity|]. cbn. rewrite IH. reflexivity. Qed.
+
+(* at quiescence, with the thread of every entry: the log IS the list of (thread that took the
+   turn, result of [step] at that place of the linearization) of some coarse schedule *)
+Theorem fine_results_tagged : forall fsched threads s0,
+  let c := frun fsched (finit threads s0) in
+  let l := snd (frun_log fsched (finit threads s0, [])) in
+  fowner c = None ->
+  exists sched,
+    fstate c = run s0 (linearize sched threads) /\
+    map pending (fths c) = fst (crun sched (threads, s0)) /\
+    l = combine (sched_tids sched threads) (map snd (trace_gen step s0 (linearize sched threads))).
+Proof.
+  intros fsched threads s0 c l Ho.
+  destruct (fine_results_are_coarse fsched threads s0) as [sch [P S]]. fold c l in P, S. rewrite Ho in S.
+  destruct S as [Es El]. exists sch.
+  destruct (concurrent_is_sequential sch threads s0) as [E _].
+  split; [rewrite Es; exact E|]. split; [exact P|].
+  rewrite <- (combine_fst_snd l). rewrite El at 1 2. rewrite crun_log_tids, crun_log_results. reflexivity.
+Qed.
+
+(* ---- per thread: the operations the schedule took from thread j, in order, followed by what is
+   still pending in thread j, are thread j's program ---- *)
+Fixpoint lin_tagged (sched : list nat) (threads : list (list top)) : list (nat * top) :=
+  match sched with
+  | [] => []
+  | i :: r => match take_turn i threads with
+              | (Some o, ths') => (i, o) :: lin_tagged r ths'
+              | (None, ths') => lin_tagged r ths'
+              end
+  end.
+
+Lemma lin_tagged_fst : forall sched threads, map fst (lin_tagged sched threads) = sched_tids sched threads.
+Proof.
+  induction sched as [|i r IH]; intros threads; [reflexivity|]. cbn [lin_tagged sched_tids].
+  destruct (take_turn i threads) as [[o|] ths']; cbn [map fst]; rewrite IH; reflexivity.
+Qed.
+Lemma lin_tagged_snd : forall sched threads, map snd (lin_tagged sched threads) = linearize sched threads.
+Proof.
+  induction sched as [|i r IH]; intros threads; [reflexivity|]. cbn [lin_tagged linearize].
+  destruct (take_turn i threads) as [[o|] ths']; cbn [map snd]; rewrite IH; reflexivity.
+Qed.
+
+Lemma take_turn_some_nth : forall i threads o ths', take_turn i threads = (Some o, ths') ->
+  nth i threads [] = o :: nth i ths' [] /\ (forall j, j <> i -> nth j ths' [] = nth j threads []).
+Proof.
+  induction i as [|k IH]; intros [|t rest] o ths' H; cbn [take_turn] in H; try discriminate.
+  - destruct t as [|x t']; [discriminate|]. injection H as <- <-. split; [reflexivity|].
+    intros [|j] Hj; [congruence|reflexivity].
+  - destruct (take_turn k rest) as [o1 rest'] eqn:T. injection H as -> <-.
+    destruct (IH rest o rest' T) as [A B]. split; [exact A|].
+    intros [|j] Hj; [reflexivity|]. cbn [nth]. apply B. congruence.
+Qed.
+Lemma take_turn_none_same : forall i threads ths', take_turn i threads = (None, ths') -> ths' = threads.
+Proof.
+  induction i as [|k IH]; intros [|t rest] ths' H; cbn [take_turn] in H.
+  - injection H as <-. reflexivity.
+  - destruct t as [|x t']; [injection H as <-; reflexivity|discriminate].
+  - injection H as <-. reflexivity.
+  - destruct (take_turn k rest) as [o1 rest'] eqn:T. injection H as -> <-.
+    rewrite (IH rest rest' T). reflexivity.
+Qed.
+
+Theorem per_thread_program_order : forall sched threads s j,
+  (map snd (filter (fun p => Nat.eqb (fst p) j) (lin_tagged sched threads))
+   ++ nth j (fst (crun sched (threads, s))) [])%list = nth j threads [].
+Proof.
+  induction sched as [|i r IH]; intros threads s j; [reflexivity|].
+  cbn [crun fold_left lin_tagged]. unfold cstep at 2. cbn [fst snd].
+  destruct (take_turn i threads) as [[o|] ths'] eqn:T.
+  - destruct (take_turn_some_nth i threads o ths' T) as [A B].
+    cbn [filter fst]. unfold crun in IH. destruct (Nat.eqb i j) eqn:E.
+    + apply Nat.eqb_eq in E. subst j. cbn [map snd app]. rewrite IH, A. reflexivity.
+    + apply Nat.eqb_neq in E. rewrite IH. apply B. congruence.
+  - rewrite (take_turn_none_same i threads ths' T). unfold crun in IH. apply IH.
+Qed.
+
+(* Headline per thread, at quiescence: the log is [combine tids results] for the tagged
+   linearization [lt]; thread j's entries of [lt], in order, followed by its pending operations, are
+   exactly thread j's program - so the k-th result thread j received is the result [step] gives for
+   its k-th operation at that operation's place in the sequential order. *)
+Theorem fine_results_per_thread : forall fsched threads s0,
+  let c := frun fsched (finit threads s0) in
+  let l := snd (frun_log fsched (finit threads s0, [])) in
+  fowner c = None ->
+  exists lt : list (nat * top),
+    fstate c = run s0 (map snd lt) /\
+    l = combine (map fst lt) (map snd (trace_gen step s0 (map snd lt))) /\
+    forall j, (map snd (filter (fun p => Nat.eqb (fst p) j) lt) ++ nth j (map pending (fths c)) [])%list
+              = nth j threads [].
+Proof.
+  intros fsched threads s0 c l Ho.
+  destruct (fine_results_tagged fsched threads s0 Ho) as [sch [Es [P El]]]. fold c l in Es, P, El.
+  exists (lin_tagged sch threads). rewrite lin_tagged_fst, lin_tagged_snd.
+  split; [exact Es|]. split; [exact El|].
+  intros j. rewrite P. apply per_thread_program_order.
+Qed.
